@@ -26,6 +26,18 @@ pub fn run(ctx: &Ctx) -> (Vec<Case>, String, bool, BTreeMap<String, String>) {
     extra.extend(crate::c18_vsockconn::run(ctx).0);
     // blocking sound transfers against devices that answer with errors / out of order: every call ends
     extra.extend(crate::c20_cmd::sound_cases(ctx, "C07", ctx.tier.pick(300, 5000)));
+    // GPU operations against a device that answers any command with any type: backing memory is never
+    // released while a resource has it attached (the device would read freed memory)
+    {
+        let mut gpu = crate::c20_cmd::gpu_cases(ctx, "C07", ctx.tier.pick(300, 5000));
+        for c in gpu.iter_mut() {
+            c.oracle_failures.retain(|f| f.contains("while it is attached as backing") || f.contains("no longer allocated after"));
+            for f in c.oracle_failures.iter_mut() {
+                *f = format!("ledger: {}", f);
+            }
+        }
+        extra.extend(gpu);
+    }
     // configuration accesses at every offset around the end of the device's window (MMIO and PCI):
     // nothing outside the window is touched, whatever lengths the device advertises
     extra.extend(crate::c13_config::bounds_cases(ctx));
